@@ -187,6 +187,7 @@ pub fn main(o: &Opts) {
     let cfgs = cfgs_from_opts(o, "memb,mem1");
     let per_cat = o.get_usize("per_cat", 8).max(1);
     let prop = o.get("prop").unwrap_or("C28").to_string();
+    let max_rows = o.get_usize("max_rows", 3000);
     let mut r = Rng::new(o.seed ^ 0xC28);
     let mut cat = gen_catalog(&mut r, &copts);
     let mut n = 0usize; let mut attempts = 0usize;
@@ -206,6 +207,8 @@ pub fn main(o: &Opts) {
             if let Some(ns) = neutral_sql(case["sql"].as_str().unwrap_or(""), &defs) { case["neutral_sql"] = json!(ns); }
         }
         let imp = run_one(&case);
+        // a result of more than `max_rows` rows (products of joins over CTEs) is not worth judging row by row in the reference semantics
+        if imp["ok"].as_array().map(|a| a.len() > max_rows).unwrap_or(false) { continue; }
         emit(case, imp);
         n += 1;
     }
